@@ -8,7 +8,7 @@ Model of the command line tool `graphql-client` (`graphql_client_cli/src/`):
   request that is built, and the order of effects of `introspect_schema` on the `--output` file and
   on stdout, for every behaviour of the server;
 * `generate.rs` — flags → `GraphQLClientCodegenOptions`, the destination path
-  (`Path::file_name`, `Path::with_extension`, `Path::join` as functions on character lists), the
+  (`Path::file_name`, `Path::file_stem`, `Path::join`, `Path::with_file_name` as functions on character lists), the
   text that is written, and the order of effects of `generate_code` on the file system.
 
 External code is a *parameter* of the model (never a default value): the library generator, rustfmt,
@@ -385,7 +385,7 @@ def cliOptions (synPathOk : String → Bool) (f : GenFlags) : Except Exit Option
       if synPathOk m then .ok { o with scalarsModule := some m }
       else .error (.failure "Invalid custom scalar module path")
 
-/-! ### destination path: `Path::file_name`, `Path::with_extension`, `Path::join` on `/`-separated strings -/
+/-! ### destination path: `Path::file_name`, `file_stem`, `parent`, `join`, `with_file_name` on `/`-separated strings -/
 
 /-- what `Components::next_back` skips at the end of a path: separators and `.` components.
 The argument is the *reversed* path. -/
